@@ -281,6 +281,19 @@ def run(ctx):
         j, ns = jobs_for(name, base, content, pcs, cfg, thorough)
         jobs += j
         nstruct += ns
+    # value-dependent shapes (digests containing 0x00, where a str*-style comparison stops): a chunk replaced by its digest twin
+    # in files without a data digest, and a chunk swap whose stale and actual data digests both begin with 0x00
+    vd = []
+    for cfg in [Cfg(0, b"", 1, 1, 1), Cfg(2, b"", 1, 2, 1), Cfg(2, universe.DELTA_DICT, 1, 1, 0)]:
+        for at in (0, 1, 2):
+            good, mut, content, ci, limit, Q = universe.twin_file(cfg, ctx.seed, at=at)
+            vd.append(("ref:twin:%s" % cfg.name(), good, content, "twin-chunk@%d" % at, mut))
+    for cfg in [Cfg(0, b"", 0, 3, 1), Cfg(2, b"", 0, 3, 0)]:
+        good, mut, content = universe.zero_swap_file(cfg, ctx.seed)
+        vd.append(("ref:zero-swap:%s" % cfg.name(), good, content, "swap-both-stale-zero-datadigest", mut))
+    for name, good, content, nm, mut in vd:
+        jobs.append((name, good, content, scheds_for(zckref.parse(good), not thorough), ["file %s" % mut.hex()], [("file", mut, nm)]))
+    nstruct += len(vd)
     ctx.bounds = {"base_files": [b[0] for b in bases], "bit_flips": "every bit of every byte", "substitutions": "all 255 at every body byte",
                   "truncations": "every length", "indels": "every position", "structural_mutants": nstruct,
                   "schedules": scheds_for(zckref.parse(bases[0][1]), not thorough)}
